@@ -9,9 +9,8 @@ CONSTANTS
   QS = {1, 2}
   ADVS = {0, 2, 3, 4, 5}
   LENS = {0, 1, 2, 3}
-  RESTART = TRUE
+  MODES = {"fixed"}
   DUPOKS = {TRUE}
-  DROPS = TRUE
   PRIVATES = {FALSE}
 INVARIANT Inv
 PROPERTY Live
